@@ -406,3 +406,59 @@ pub fn wcase_strategy(
         })
         .boxed()
 }
+
+/// Episodes in which a key roll of a CA meets a change of that CA's entitlements
+/// at its parent, with only a few background tasks run in between: the roll is
+/// started, the parent changes what the CA is entitled to (before or after the
+/// start), one to three tasks run (so that one key has a certificate for the
+/// new entitlement and the other has not), the new key is activated, a few more
+/// tasks run, checkpoint. Up to two episodes per case, spread over the history.
+pub fn with_roll_episodes(base: BoxedStrategy<WCase>) -> BoxedStrategy<WCase> {
+    (base, vec((any::<u16>(), any::<u16>(), any::<u16>(), res_mask()), 0..3))
+        .prop_map(|(mut case, episodes)| {
+            let edges: Vec<(u8, u8)> = case
+                .setup
+                .iter()
+                .filter_map(|o| match o {
+                    Op::Attach { ca, parent, .. } if *parent != 0 => Some((*parent, *ca)),
+                    _ => None,
+                })
+                .collect();
+            if edges.is_empty() {
+                return case;
+            }
+            for (sel, pos, gaps, res) in episodes {
+                let (parent, child) = edges[sel as usize * edges.len() >> 16];
+                let pump = |k: u16| -> Option<Op> {
+                    let n = ((gaps >> (2 * k)) & 3) as u8;
+                    if n == 0 { None } else { Some(Op::Pump { n }) }
+                };
+                let change = Op::ChildResources { parent, child, res };
+                let mut seq: Vec<Op> = Vec::new();
+                if gaps & 0x100 == 0 {
+                    seq.push(Op::KeyrollInit { ca: child });
+                    seq.extend(pump(0));
+                    seq.push(change);
+                } else {
+                    seq.push(change);
+                    seq.extend(pump(0));
+                    seq.push(Op::KeyrollInit { ca: child });
+                }
+                seq.extend(pump(1));
+                seq.push(Op::KeyrollActivate { ca: child });
+                seq.extend(pump(2));
+                seq.push(Op::Check);
+                let mut at = pos as usize * (case.ops.len() + 1) >> 16;
+                for (k, op) in seq.into_iter().enumerate() {
+                    if k > 0 {
+                        // mostly adjacent, sometimes with one generated operation in between
+                        at += 1 + ((gaps >> (9 + (k % 6))) & 1) as usize * ((sel >> k.min(15)) & 1) as usize;
+                    }
+                    at = at.min(case.ops.len());
+                    case.ops.insert(at, op);
+                }
+            }
+            case
+        })
+        .boxed()
+}
